@@ -379,6 +379,7 @@ WrongSignIsCovariant ==
         LapCovariantOn(M, L, L2, c2)
 
 \* ---- export of complete instances for the replay into the real code (spec -> code)
-ExportRec == [mi |-> mi, pat |-> pat, name |-> Meshes[mi].name, geo |-> Meshes[mi].geo, q |-> Q, mesh |-> Inst]
-Emit == AtFull => PrintT(ToJson(ExportRec))
+ExportRec == [mi |-> mi, pat |-> pat, name |-> Meshes[mi].name, geo |-> Meshes[mi].geo, q |-> Q, chi |-> Chi, mesh |-> Inst]
+Emit == AtFull => PrintT(ToJson(ExportRec))             \* C03: mesh, weights, links
+EmitGauge == AtGauge => PrintT(ToJson(ExportRec))       \* C04: ... and a gauge generator
 =============================================================================
